@@ -12,9 +12,10 @@ LEVEL = "exploration"
 RULE = ("Metamorphic: Hypothesis generates a multiset Wf of 2-5 well-formed entries over home and "
         "$topdir trash dirs, a set M of 1-4 malformed neighbours {non-.trashinfo file in info/, "
         "empty, truncated, binary, non-UTF-8 info, no Path, no DeletionDate, invalid date, info "
-        "without payload, payload without info, directory named *.trashinfo, dangling symlink named "
-        "*.trashinfo; optionally claiming the same original location as a well-formed entry}, a readdir permutation seed (os.listdir results are permuted by the "
-        "interposer) and a command {list; restore x sort x chosen entry; rm pattern; empty; empty "
+        "without payload, payload without info, directory named *.trashinfo (one, or 150 of them with the "
+        "command's descriptor table limited to 128), dangling symlink named *.trashinfo, info named "
+        "..trashinfo / ...trashinfo; optionally claiming the same original location as a well-formed entry}, a readdir permutation seed (os.listdir results are permuted by the "
+        "interposer) and a command {list; list --size; list --files; restore x sort x chosen entry; rm pattern; empty; empty "
         "DAYS}. The command runs on world(Wf) and on world(Wf u M); stdout records and all "
         "effects RESTRICTED TO Wf must be identical (same lines listed, same entry restored to the "
         "same place, same set removed / kept). Non-trivial: |Wf| >= 2, |M| >= 1; distinct by "
@@ -23,8 +24,8 @@ ASSUMPTIONS = ["the entry to restore is addressed by the index printed for it in
 
 MKINDS = ["non_trashinfo", "empty", "truncated", "binary", "nonutf8", "no_path", "no_date",
           "bad_date", "no_payload", "orphan", "dir_trashinfo", "dangling_trashinfo", "long_orphan",
-          "long_non_trashinfo", "tz_date"]
-CMDS = ["list", "restore_date", "restore_path", "restore_none", "rm", "empty", "empty_days"]
+          "long_non_trashinfo", "tz_date", "dot_info", "dotdot_info", "many_dirs"]
+CMDS = ["list", "list_size", "list_files", "restore_date", "restore_path", "restore_none", "rm", "empty", "empty_days"]
 
 
 def examples(tier):
@@ -104,6 +105,14 @@ def build(case, with_m):
                 tw.nodes += [{"p": ip, "t": "b", "b": list(b"[Trash Info]\nPath=" + oracle.pct_encode(pv) + b"\nDeletionDate=" + z + b"\n")}, pay]
             elif k == "no_payload":
                 tw.nodes += [{"p": ip, "t": "b", "b": list(good)}]
+            elif k == "many_dirs":
+                # 150 directories named *.trashinfo: more than the descriptor table of the command
+                # (plan nofile=128) can hold if each one leaks a descriptor
+                tw.nodes += [{"p": td + "/info/%s-%03d.trashinfo" % (nm, j), "t": "d"} for j in range(150)]
+            elif k in ("dot_info", "dotdot_info"):
+                # a well-formed info file whose NAME maps to the payload files/. or files/..
+                tw.nodes += [{"p": td + "/info/" + ("." if k == "dot_info" else "..") + ".trashinfo",
+                              "t": "b", "b": list(good)}]
             elif k == "orphan":
                 tw.nodes += [pay]
             elif k == "long_orphan":
@@ -123,7 +132,7 @@ def observe(case, with_m):
     spec = tw.spec(cwd="/")
     sandbox.build_world(spec)
     before = sandbox.snapshot()
-    plan = {"perm_seed": case["perm"]}
+    plan = {"perm_seed": case["perm"], "nofile": 128}
     cmd = case["cmd"]
     pick = es[case["pick"] % len(es)]
     res = None
@@ -131,6 +140,23 @@ def observe(case, with_m):
     if cmd == "list":
         res = runner.run(spec, "trash-list", [], plan=plan)
         info["lines"] = sorted(gen.list_line(e) for e in es if (gen.list_line(e) + "\n") in res.out)
+    elif cmd == "list_size":
+        # expected record of a well-formed entry: what stat(2) says about its payload (0 for a
+        # dangling link), a blank, the original location
+        import os
+        want = []
+        for e in es:
+            try:
+                sz = os.stat(sandbox.wp(e["payload"])).st_size
+            except OSError:
+                sz = 0
+            want.append("%d %s" % (sz, e["orig"]))
+        res = runner.run(spec, "trash-list", ["--size"], plan=plan)
+        info["lines"] = sorted(w for w in want if (w + "\n") in res.out)
+    elif cmd == "list_files":
+        res = runner.run(spec, "trash-list", ["--files"], plan=plan)
+        want = ["%s -> %s" % (gen.list_line(e), e["payload"]) for e in es]
+        info["lines"] = sorted(w for w in want if (w + "\n") in res.out)
     elif cmd.startswith("restore"):
         sort = ["--sort", cmd.split("_")[1]]
         r0 = runner.run(spec, "trash-restore", sort + ["/"], stdin="", plan=plan)
@@ -169,7 +195,8 @@ def run_case(case):
     kinds = sorted(set(m["kind"] for m in case["mal"]))
     cmd = case["cmd"]
     tags = dict(cmd=cmd)
-    for k in ("nonutf8", "dir_trashinfo", "no_date", "bad_date", "dangling_trashinfo", "long_orphan"):
+    for k in ("nonutf8", "dir_trashinfo", "no_date", "bad_date", "dangling_trashinfo", "long_orphan",
+              "dot_info", "dotdot_info"):
         tags["has_" + k] = k in kinds
     out.classes += ["cmd:" + cmd] + ["m:" + k for k in kinds]
     for key in ("lines", "offered"):
